@@ -8,8 +8,8 @@ import LassoModel.Extracted
   the load of the limit and the atomic check-and-add in `allocate_memory` are separate steps) and every
   pattern of spurious compare-exchange failures.
 
-  Partial: the limit is fixed during a run (`set_memory_limit` racing with interning is exercised by
-  the harness, not modelled), and allocation failure of the global allocator is not modelled.
+  Limit changes racing with interning are events of the schedule (`runE`).  Allocation failure of the
+  global allocator is not modelled.
 -/
 namespace Lasso.C09
 open Lasso Lasso.CA
@@ -22,25 +22,7 @@ is created with its first block already allocated; `cap ≤ max` is what the con
 theorem usage_never_exceeds_limit (hcm : cap ≤ max) (sched : List (Nat × Bool)) :
     (run (init cap max programs) sched).usage ≤ max := by
   have hi := reach_inv cap max programs sched
-  have hm : (run (init cap max programs) sched).max = max := by
-    have : ∀ (sched : List (Nat × Bool)) (s : AS), (run s sched).max = s.max := by
-      intro sched
-      induction sched with
-      | nil => intro s; rfl
-      | cons e rest ih =>
-        intro s
-        obtain ⟨t, sp⟩ := e
-        unfold run
-        split
-        next s' hs =>
-          rw [ih s']
-          unfold step at hs
-          split at hs
-          · simp at hs
-          · split at hs <;> (try dsimp only at hs) <;> (repeat' (split at hs)) <;> (try (simp at hs; done)) <;>
-              (injection hs with hs; subst hs; rfl)
-        · exact ih s
-    rw [this]; rfl
+  have hm : (run (init cap max programs) sched).hi = max := (run_limits sched _).2
   have := hi.capOk
   rw [hm] at this
   exact Nat.le_trans this (Nat.max_le.mpr ⟨hcm, Nat.le_refl _⟩)
@@ -48,8 +30,28 @@ theorem usage_never_exceeds_limit (hcm : cap ≤ max) (sched : List (Nat × Bool
 /-- Without the assumption on the first block: the usage never exceeds the larger of the first block
 and the limit. -/
 theorem usage_bound (sched : List (Nat × Bool)) :
-    (run (init cap max programs) sched).usage ≤ Nat.max cap (run (init cap max programs) sched).max :=
-  (reach_inv cap max programs sched).capOk
+    (run (init cap max programs) sched).usage ≤ Nat.max cap (run (init cap max programs) sched).max := by
+  have h := (reach_inv cap max programs sched).capOk
+  rw [(run_limits sched _).2] at h
+  rw [(run_limits sched (init cap max programs)).1]
+  exact h
+
+/-- **Limit changes racing with interning** (`Ev.setMax` events anywhere in the schedule, the store of
+`set_memory_limits` being one atomic step): a thread may claim against a limit it loaded before the
+limit was lowered, so "usage ≤ the limit now" cannot hold — what does hold in every reachable state is
+that the usage never exceeds the highest limit that was ever in force (or the first block). -/
+theorem usage_never_exceeds_highest_limit (evs : List Ev) (B : Nat) (hc : cap ≤ B) (hm : max ≤ B)
+    (hall : ∀ m, Ev.setMax m ∈ evs → m ≤ B) :
+    (runE (init cap max programs) evs).usage ≤ B := by
+  have hi := runE_inv evs (init_inv cap max programs)
+  have hh := runE_hi_le evs (init cap max programs) B (by simpa [init] using hm) hall
+  exact Nat.le_trans hi.capOk (Nat.max_le.mpr ⟨hc, hh⟩)
+
+/-- The accounting identity also holds while the limit changes. -/
+theorem usage_is_held_under_limit_changes (evs : List Ev) :
+    (runE (init cap max programs) evs).usage =
+      capSum (runE (init cap max programs) evs).buckets + owned (runE (init cap max programs) evs).ts :=
+  runE_acct evs (init_inv cap max programs) (init_acct cap max programs)
 
 /-- **The usage is exactly the storage held**: at every moment it equals the capacity of the published
 blocks plus that of blocks a thread has allocated and is about to publish … -/
@@ -96,5 +98,13 @@ def demo : List (Nat × Bool) := (List.replicate 40 [(0, false), (1, false)]).fl
 example : (run (init 2 4 [[[1, 2], [3, 4]], [[5, 6], [7, 8]]]) demo).usage = 4 ∧
     quiescent (run (init 2 4 [[[1, 2], [3, 4]], [[5, 6], [7, 8]]]) demo) = true ∧
     (run (init 2 4 [[[1, 2], [3, 4]], [[5, 6], [7, 8]]]) demo).log.any (fun e => e.2.2 == .err) = true := by decide
+
+/-- Why "usage ≤ the limit *now*" is not claimed under racing limit changes: one thread loads the limit
+(64), the limit is lowered to 2, the thread claims against the 64 it saw — in the source exactly as in
+the model (`max_memory_usage.load` precedes the `fetch_update`). -/
+def staleLimit : List Ev := List.replicate 13 (Ev.th 0 false) ++ [Ev.setMax 2] ++ List.replicate 4 (Ev.th 0 false)
+
+example : (runE (init 2 64 [[[1, 2], [3, 4]]]) staleLimit).usage = 6 ∧ (runE (init 2 64 [[[1, 2], [3, 4]]]) staleLimit).max = 2 := by
+  decide
 
 end Lasso.C09
